@@ -205,6 +205,49 @@ theorem enterStep_frame (hni : (x.baseKind == C.K.includeDirective && !ii) = fal
                       · rw [if_pos c11] at h; exact .inr ⟨armPosition_frame C recI recU inp s path ii sc rd id w w' x h, .inr (.inr c11)⟩
                       · rw [if_neg c11] at h
                         injection h with h; subst h; exact .inl ⟨rfl, fun n hn => .inl hn⟩
+
+/-- every arm: flag kept and children listed, or node listed and skipping switched on, or the `include arm -/
+theorem enterStep_frame3 (h : enterStep C recI recU inp s path ii sc rd id w x = .ok w') :
+    FrameKeep w w' x ∨ (FrameSelf w w' x ∧ ActiveKind C.K x) ∨
+    ((x.baseKind == C.K.includeDirective && !ii) = true ∧ armInclude C recI recU inp s path ii sc rd id w x = .ok w') := by
+  unfold enterStep at h; dsimp only at h
+  by_cases c0 : (x.baseKind == C.K.sdNotDirective) = true
+  · rw [if_pos c0] at h; exact .inl (armNotDirective_frame C recI recU inp s path ii sc rd id w w' x h)
+  · rw [if_neg c0] at h
+    by_cases c1 : (x.kind == C.K.sdStringLiteral || x.kind == C.K.sdEscapedIdentifier) = true
+    · rw [if_pos c1] at h; exact .inl (armStrLike_frame C recI recU inp s path ii sc rd id w w' x h)
+    · rw [if_neg c1] at h
+      by_cases c2 : C.K.kept.contains x.baseKind = true
+      · rw [if_pos c2] at h; exact .inl (armKept_frame C recI recU inp s path ii sc rd id w w' x h)
+      · rw [if_neg c2] at h
+        by_cases c3 : (x.baseKind == C.K.undefine) = true
+        · rw [if_pos c3] at h; exact .inl (armUndef_frame C recI recU inp s path ii sc rd id w w' x h)
+        · rw [if_neg c3] at h
+          by_cases c4 : (x.baseKind == C.K.undefineall) = true
+          · rw [if_pos c4] at h; exact .inl (armUndefAll_frame C recI recU inp s path ii sc rd id w w' x h)
+          · rw [if_neg c4] at h
+            by_cases c5 : (x.baseKind == C.K.ifdef || x.baseKind == C.K.ifndef) = true
+            · rw [if_pos c5] at h; exact .inl (armCond_frame C recI recU inp s path ii sc rd id w w' x h)
+            · rw [if_neg c5] at h
+              by_cases c6 : (x.baseKind == C.K.whiteSpace) = true
+              · rw [if_pos c6] at h; exact .inl (armWhiteSpace_frame C recI recU inp s path ii sc rd id w w' x h)
+              · rw [if_neg c6] at h
+                by_cases c7 : (x.baseKind == C.K.comment) = true
+                · rw [if_pos c7] at h; exact .inl (armComment_frame C recI recU inp s path ii sc rd id w w' x h)
+                · rw [if_neg c7] at h
+                  by_cases c8 : (x.baseKind == C.K.textMacroDefinition) = true
+                  · rw [if_pos c8] at h; exact .inr (.inl ⟨armDefine_frame C recI recU inp s path ii sc rd id w w' x h, .inl c8⟩)
+                  · rw [if_neg c8] at h
+                    by_cases c9 : (x.baseKind == C.K.includeDirective && !ii) = true
+                    · rw [if_pos c9] at h; exact .inr (.inr ⟨c9, h⟩)
+                    rw [if_neg c9] at h
+                    by_cases c10 : (x.baseKind == C.K.textMacroUsage) = true
+                    · rw [if_pos c10] at h; exact .inr (.inl ⟨armUsage_frame C recI recU inp s path ii sc rd id w w' x h, .inr (.inl c10)⟩)
+                    · rw [if_neg c10] at h
+                      by_cases c11 : (x.baseKind == C.K.position) = true
+                      · rw [if_pos c11] at h; exact .inr (.inl ⟨armPosition_frame C recI recU inp s path ii sc rd id w w' x h, .inr (.inr c11)⟩)
+                      · rw [if_neg c11] at h
+                        injection h with h; subst h; exact .inl ⟨rfl, fun n hn => .inl hn⟩
 end
 
 end Sv
@@ -213,10 +256,12 @@ namespace Sv
 
 def AllLeafy (w : WState) : Prop := ∀ n ∈ w.skipNodes, leafy n
 
-/-- state-independent hypotheses on a node: its `include arm is not taken (no such node, or `ignore_include`), and a node whose arm switches
-    skipping on carries a token (so that it is actually listed and its `Leave` switches skipping off again) -/
+/-- state-independent hypotheses on a node (true of parse trees): a node whose arm switches skipping on — `define, macro usage, `__FILE__ /
+    `__LINE__, and an `include that is executed — carries a token (so that it is actually listed and its `Leave` switches skipping off again), and
+    an executed `include node has exactly one child (it is an enum node: its only child is the active variant) -/
 def GoodNode (C : Cfg) (ii : Bool) (d : Tree) : Prop :=
-  (d.baseKind == C.K.includeDirective && !ii) = false ∧ (ActiveKind C.K d → leafy d)
+  (ActiveKind C.K d → leafy d) ∧
+  ((d.baseKind == C.K.includeDirective && !ii) = true → leafy d ∧ ∃ inner, d.kids = [inner])
 
 section
 variable (C : Cfg) (inp : Input) (s path : Bytes) (ii sc : Bool) (rd id : Nat)
@@ -246,7 +291,7 @@ theorem safe_leave (fuel : Nat) (evs : List Event) (w : WState) (t : Tree)
 
 /-- a listed node met while not skipping: its events are jumped over -/
 theorem safe_listed_tree (fuel : Nat) (evs : List Event) (w : WState) (t : Tree)
-    (hsk : w.skip = false) (hl : w.skipNodes.contains t = true) (hd : ∀ d ∈ preL t.kids, w.skipNodes.contains d = false)
+    (hl : w.skipNodes.contains t = true) (hd : ∀ d ∈ preL t.kids, w.skipNodes.contains d = false)
     (hk : ∀ w5, w5.skip = false → w5.skipNodes = w.skipNodes → safeWalk C fuel inp s path ii sc rd id evs w5) :
     safeWalk C (fuel + (events t).length) inp s path ii sc rd id (events t ++ evs) w := by
   rw [events_kids]
@@ -288,11 +333,241 @@ def ForestSafe (ts : List Tree) : Prop :=
 theorem not_contains {l : List Tree} {t : Tree} (h : t ∉ l) : l.contains t = false := by
   rw [Bool.eq_false_iff]; intro hc; exact h ((contains_iff_mem _ _).mp hc)
 
-theorem tree_safe_of_forest (t : Tree) (hF : ForestSafe C inp s path ii sc rd id t.kids) : TreeSafe C inp s path ii sc rd id t := by
+/-- exactly what the `include arm lists: the directive itself, and — of the children of its only child — the second (the keyword) and possibly
+    the third (a macro usage naming the file) -/
+theorem armInclude_exact (recI : Bytes → Defines → Bool → Bool → Nat → Nat → Except PpError (POut × Defines))
+    (recU : Input → Bytes → Bytes → Tree → Defines → Bool → Bool → Nat → Nat → Except PpError (Option (Bytes × Option (Bytes × Range) × Defines)))
+    (w w3 : WState) (x inner : Tree) (hx : leafy x) (hkids : x.kids = [inner])
+    (h : armInclude C recI recU inp s path ii sc rd id w x = .ok w3) :
+    w3.skip = true ∧ x ∈ w3.skipNodes ∧
+    (∀ n ∈ w3.skipNodes, n ∈ w.skipNodes ∨ n = x ∨ (leafy n ∧ n ∈ inner.kids)) := by
+  have hbase : ∀ n ∈ (w.skipPush x).skipNodes, n ∈ w.skipNodes ∨ n = x := by
+    intro n hn; rw [mem_skipPush] at hn
+    rcases hn with hn | ⟨h1, _⟩
+    · exact .inl hn
+    · exact .inr h1
+  have hxin : x ∈ (w.skipPush x).skipNodes := (mem_skipPush w x x).mpr (.inr ⟨rfl, hx⟩)
+  have hhead : x.kids.head? = some inner := by rw [hkids]; rfl
+  rw [armInclude_eq] at h
+  split at h
+  · injection h with h; subst h
+    exact ⟨rfl, hxin, fun n hn => (hbase n hn).elim .inl (fun h => .inr (.inl h))⟩
+  · split at h
+    · cases h
+    · unfold incTail at h; dsimp only at h
+      rw [hhead] at h
+      dsimp only at h
+      split at h
+      · cases h
+      · rename_i p0 extra hp
+        split at h
+        · cases h
+        · injection h with h; subst h
+          refine ⟨skipPushAll_skip _ _, ?_, ?_⟩
+          · exact (mem_skipPushAll _ _ _).mpr (.inl hxin)
+          · intro n hn
+            dsimp only at hn
+            rw [mem_skipPushAll] at hn
+            rcases hn with hn | ⟨hn, hl⟩
+            · exact (hbase n hn).elim .inl (fun h => .inr (.inl h))
+            · right; right
+              refine ⟨hl, ?_⟩
+              simp only [List.mem_append] at hn
+              rcases hn with hn | hn
+              · exact head?_mem_drop hn
+              · repeat' split at hp
+                all_goals first
+                  | (cases hp; done)
+                  | (injection hp with hp; injection hp with _ hp; subst hp
+                     first
+                       | (simp at hn; done)
+                       | (simp only [List.mem_singleton] at hn; subst hn
+                          exact List.mem_of_mem_drop (List.mem_of_mem_head? ‹(List.drop 2 inner.kids).head? = some _›)))
+
+/-- an unlisted `Leave` met while skipping changes nothing -/
+theorem safe_leave_skipping (fuel : Nat) (evs : List Event) (w : WState) (t : Tree) (hs : w.skip = true) (hu : t ∉ w.skipNodes)
+    (hk : safeWalk C fuel inp s path ii sc rd id evs w) : safeWalk C (fuel + 1) inp s path ii sc rd id (.leave t :: evs) w := by
+  have := safeWalk_skipping C inp s path ii sc rd id evs [Event.leave t] fuel w hs
+    (fun e he => by simp only [List.mem_singleton] at he; subst he; exact not_contains hu) hk
+  simpa using this
+
+/-- a forest walked while skipping, whose listed nodes are top-level trees of the forest: everything up to and including the first listed tree is
+    passed in skipping mode (its `Leave` switches skipping off), the rest is walked normally -/
+theorem skip_forest_safe : ∀ (ts : List Tree), (∀ rest, sizeL rest ≤ sizeL ts → ForestSafe C inp s path ii sc rd id rest) →
+    ∀ (w : WState) (evs : List Event) (fuel : Nat),
+    w.skip = true → (leavesL ts).Nodup → AllLeafy w → (∀ d ∈ preL ts, d ∈ w.skipNodes → d ∈ ts) → (∀ d ∈ preL ts, GoodNode C ii d) →
+    (∀ w1, AllLeafy w1 → (∀ n ∈ w1.skipNodes, n ∈ w.skipNodes ∨ n ∈ preL ts) →
+      ((w1.skip = true ∧ w1.skipNodes = w.skipNodes) ∨ w1.skip = false) → safeWalk C fuel inp s path ii sc rd id evs w1) →
+    safeWalk C (fuel + (eventsL ts).length) inp s path ii sc rd id (eventsL ts ++ evs) w := by
+  intro ts
+  induction ts with
+  | nil =>
+    intro _ w evs fuel hs _ hal _ _ hk
+    simp only [eventsL, List.nil_append, List.length_nil, Nat.add_zero]
+    exact hk w hal (fun n hn => .inl hn) (.inl ⟨hs, rfl⟩)
+  | cons t rest ih =>
+    intro hF w evs fuel hs hnd hal hfresh hgood hk
+    have e0 : eventsL (t :: rest) ++ evs = events t ++ (eventsL rest ++ evs) := by simp [eventsL, List.append_assoc]
+    have e1 : fuel + (eventsL (t :: rest)).length = (fuel + (eventsL rest).length) + (events t).length := by
+      simp [eventsL, List.length_append]; omega
+    rw [e0, e1]
+    simp only [leavesL] at hnd
+    have hsub : ∀ d ∈ preL t.kids, d ∉ w.skipNodes := by
+      intro d hd hdw
+      have hdt : d ∈ pre t := mem_pre_of_mem_preL_kids hd
+      have := hfresh d (by simp [preL, hdt]) hdw
+      simp only [List.mem_cons] at this
+      rcases this with h | h
+      · exact ne_of_mem_preL_kids t d hd h
+      · exact not_mem_preL_of_mem_pre t rest hnd d hdt (hal d hdw) (mem_preL_of_mem_pre h (self_mem_pre d))
+    have hfrest : ∀ (w1 : WState), w1.skipNodes = w.skipNodes → ∀ d ∈ preL rest, d ∈ w1.skipNodes → d ∈ rest := by
+      intro w1 h1 d hd hd1
+      rw [h1] at hd1
+      have := hfresh d (by simp [preL, hd]) hd1
+      simp only [List.mem_cons] at this
+      rcases this with h2 | h2
+      · exact absurd hd (not_mem_preL_of_mem_pre t rest hnd d (h2 ▸ self_mem_pre t) (hal d hd1))
+      · exact h2
+    by_cases hl : t ∈ w.skipNodes
+    · -- the listed tree: passed, its Leave switches skipping off, the rest is walked normally
+      refine safe_listed_tree C inp s path ii sc rd id _ _ w t ((contains_iff_mem _ _).mpr hl) (fun d hd => not_contains (hsub d hd)) ?_
+      intro w5 h5sk h5n
+      have h5al : AllLeafy w5 := fun n hn => hal n (by rw [h5n] at hn; exact hn)
+      refine hF rest (by simp only [sizeL]; omega) w5 evs fuel h5sk (List.nodup_append.mp hnd).2.1 h5al (hfrest w5 h5n)
+        (fun d hd => hgood d (by simp [preL, hd])) ?_
+      intro w1 h1sk h1al h1sub
+      refine hk w1 h1al ?_ (.inr h1sk)
+      intro n hn
+      rcases h1sub n hn with h | h
+      · exact .inl (by rw [h5n] at h; exact h)
+      · exact .inr (by simp [preL, h])
+    · -- an unlisted tree: nothing in it is listed, it is passed in skipping mode
+      have hall : ∀ e ∈ events t, w.skipNodes.contains (evNode e) = false := by
+        intro e he
+        have hm : evNode e ∈ pre t := by
+          have := evNode_mem_preL [t] e (by simpa [eventsL] using he)
+          simpa [preL] using this
+        apply not_contains
+        rw [pre_kids] at hm
+        simp only [List.mem_cons] at hm
+        rcases hm with h | h
+        · rw [h]; exact hl
+        · exact hsub _ h
+      apply safeWalk_skipping C inp s path ii sc rd id _ (events t) _ w hs hall
+      refine ih (fun r hr => hF r (by simp only [sizeL]; omega)) w evs fuel hs (List.nodup_append.mp hnd).2.1 hal (hfrest w rfl)
+        (fun d hd => hgood d (by simp [preL, hd])) ?_
+      intro w1 h1al h1sub hmode
+      exact hk w1 h1al (fun n hn => (h1sub n hn).elim .inl (fun h => .inr (by simp [preL, h]))) hmode
+
+/-- the rest of an executed `include node after its arm -/
+theorem safe_include_rest (recI : Bytes → Defines → Bool → Bool → Nat → Nat → Except PpError (POut × Defines))
+    (recU : Input → Bytes → Bytes → Tree → Defines → Bool → Bool → Nat → Nat → Except PpError (Option (Bytes × Option (Bytes × Range) × Defines)))
+    (t : Tree) (w w2 w3 : WState) (evs : List Event) (fuel : Nat)
+    (hnd : (leaves t).Nodup) (hal : AllLeafy w) (hfresh : ∀ d ∈ preL t.kids, d ∉ w.skipNodes)
+    (hgood : ∀ d ∈ pre t, GoodNode C ii d) (hl : t ∉ w.skipNodes) (hf2 : w2.skipNodes = w.skipNodes)
+    (hginc : leafy t ∧ ∃ inner, t.kids = [inner])
+    (hai : armInclude C recI recU inp s path ii sc rd id w2 t = .ok w3)
+    (hAll : ∀ ts, sizeL ts < size t → ForestSafe C inp s path ii sc rd id ts)
+    (hk : ∀ w1, w1.skip = false → AllLeafy w1 → (∀ n ∈ w1.skipNodes, n ∈ w.skipNodes ∨ n ∈ pre t) → safeWalk C fuel inp s path ii sc rd id evs w1) :
+    safeWalk C ((fuel + 1) + (eventsL t.kids).length) inp s path ii sc rd id (eventsL t.kids ++ ([Event.leave t] ++ evs)) w3 := by
+  obtain ⟨hlt, inner, hkids⟩ := hginc
+  obtain ⟨h3sk, h3t, h3sub⟩ := armInclude_exact C inp s path ii sc rd id recI recU w2 w3 t inner hlt hkids hai
+  have hinner_t : inner ∈ t.kids := by rw [hkids]; simp
+  have hpre_inner : ∀ d ∈ pre inner, d ∈ preL t.kids := fun d hd => mem_preL_of_mem_pre hinner_t hd
+  have h3al : AllLeafy w3 := by
+    intro n hn
+    rcases h3sub n hn with h | h | ⟨h, _⟩
+    · exact hal n (by rw [hf2] at h; exact h)
+    · rw [h]; exact hlt
+    · exact h
+  -- `inner` is not listed
+  have hinner3 : inner ∉ w3.skipNodes := by
+    intro h
+    rcases h3sub inner h with h | h | ⟨_, h⟩
+    · exact hfresh inner (hpre_inner inner (self_mem_pre inner)) (by rw [hf2] at h; exact h)
+    · exact ne_of_mem_preL_kids t inner (hpre_inner inner (self_mem_pre inner)) h
+    · exact ne_of_mem_preL_kids inner inner (mem_preL_of_mem_pre h (self_mem_pre inner)) rfl
+  rw [hkids]
+  have ev0 : eventsL [inner] = Event.enter inner :: (eventsL inner.kids ++ [Event.leave inner]) := by
+    simp [eventsL, events_kids]
+  rw [ev0]
+  have e1 : (fuel + 1) + (Event.enter inner :: (eventsL inner.kids ++ [Event.leave inner])).length
+      = ((((fuel + 1) + 1) + (eventsL inner.kids).length)) + 1 := by simp [List.length_cons, List.length_append]; omega
+  rw [e1, List.cons_append, List.append_assoc]
+  -- enter inner: skipping, unlisted
+  have := safeWalk_skipping C inp s path ii sc rd id (eventsL inner.kids ++ ([Event.leave inner] ++ ([Event.leave t] ++ evs))) [Event.enter inner]
+    ((((fuel + 1) + 1) + (eventsL inner.kids).length)) w3 h3sk
+    (fun e he => by simp only [List.mem_singleton] at he; subst he; exact not_contains hinner3)
+  simp only [List.length_singleton, List.singleton_append] at this
+  apply this
+  -- the children of inner, in skipping mode
+  have hndi : (leavesL inner.kids).Nodup := by
+    have h1 : (leavesL t.kids).Nodup := nodup_kids hnd
+    rw [hkids] at h1
+    simp only [leavesL, List.append_nil] at h1
+    exact nodup_kids h1
+  refine skip_forest_safe C inp s path ii sc rd id inner.kids ?_ w3 _ ((fuel + 1) + 1) h3sk hndi h3al ?_ ?_ ?_
+  · intro r hr
+    apply hAll r
+    have h1 : size t = 1 + sizeL t.kids := size_kids t
+    rw [hkids] at h1
+    simp only [sizeL, Nat.add_zero] at h1
+    have h2 : size inner = 1 + sizeL inner.kids := size_kids inner
+    omega
+  · intro d hd hd3
+    rcases h3sub d hd3 with h | h | ⟨_, h⟩
+    · exact absurd (by rw [hf2] at h; exact h) (hfresh d (hpre_inner d (mem_pre_of_mem_preL_kids hd)))
+    · exact absurd h (ne_of_mem_preL_kids t d (hpre_inner d (mem_pre_of_mem_preL_kids hd)))
+    · exact h
+  · exact fun d hd => hgood d (mem_pre_of_mem_preL_kids (hpre_inner d (mem_pre_of_mem_preL_kids hd)))
+  · -- after the children of inner: Leave inner, Leave t
+    intro w4 h4al h4sub hmode
+    have hsub4 : ∀ n ∈ w4.skipNodes, n ∈ w.skipNodes ∨ n ∈ pre t := by
+      intro n hn
+      rcases h4sub n hn with h | h
+      · rcases h3sub n h with h | h | ⟨_, h⟩
+        · exact .inl (by rw [hf2] at h; exact h)
+        · exact .inr (h ▸ self_mem_pre t)
+        · exact .inr (mem_pre_of_mem_preL_kids (hpre_inner n (mem_pre_of_mem_kids h)))
+      · exact .inr (mem_pre_of_mem_preL_kids (hpre_inner n (mem_pre_of_mem_preL_kids h)))
+    have hinner4 : inner ∉ w4.skipNodes := by
+      intro h
+      rcases h4sub inner h with h | h
+      · exact hinner3 h
+      · exact ne_of_mem_preL_kids inner inner h rfl
+    have hfinal : ∀ w5, w5.skip = false → w5.skipNodes = w4.skipNodes →
+        safeWalk C (fuel + 1) inp s path ii sc rd id ([Event.leave t] ++ evs) w5 := by
+      intro w5 h5sk h5n
+      have hc : w5.skipNodes.contains t = true ∨ (w5.skipNodes.contains t = false ∧ w5.skip = false) := by
+        by_cases hm : t ∈ w5.skipNodes
+        · exact .inl ((contains_iff_mem _ _).mpr hm)
+        · exact .inr ⟨not_contains hm, h5sk⟩
+      refine safe_leave C inp s path ii sc rd id fuel evs w5 t hc ?_
+      intro w6 h6sk h6n
+      refine hk w6 h6sk (fun n hn => h4al n (by rw [h6n, h5n] at hn; exact hn)) ?_
+      intro n hn
+      exact hsub4 n (by rw [h6n, h5n] at hn; exact hn)
+    rcases hmode with ⟨h4sk, h4n⟩ | h4sk
+    · -- still skipping
+      have hstep := safe_leave_skipping C inp s path ii sc rd id (fuel + 1) ([Event.leave t] ++ evs) w4 inner h4sk hinner4
+      apply hstep
+      -- Leave t: listed, switches skipping off
+      have ht4 : t ∈ w4.skipNodes := by rw [h4n]; exact h3t
+      refine safe_leave C inp s path ii sc rd id fuel evs w4 t (.inl ((contains_iff_mem _ _).mpr ht4)) ?_
+      intro w6 h6sk h6n
+      refine hk w6 h6sk (fun n hn => h4al n (by rw [h6n] at hn; exact hn)) ?_
+      intro n hn
+      exact hsub4 n (by rw [h6n] at hn; exact hn)
+    · refine safe_leave C inp s path ii sc rd id (fuel + 1) ([Event.leave t] ++ evs) w4 inner (.inr ⟨not_contains hinner4, h4sk⟩) ?_
+      intro w5 h5sk h5n
+      exact hfinal w5 h5sk h5n
+
+theorem tree_safe_of_forest (t : Tree) (hF : ForestSafe C inp s path ii sc rd id t.kids)
+    (hAll : ∀ ts, sizeL ts < size t → ForestSafe C inp s path ii sc rd id ts) : TreeSafe C inp s path ii sc rd id t := by
   intro w evs fuel hsk hnd hal hfresh hgood hk
   by_cases hl : t ∈ w.skipNodes
   · -- listed: jumped over
-    refine safe_listed_tree C inp s path ii sc rd id fuel evs w t hsk ((contains_iff_mem _ _).mpr hl)
+    refine safe_listed_tree C inp s path ii sc rd id fuel evs w t ((contains_iff_mem _ _).mpr hl)
       (fun d hd => not_contains (hfresh d hd)) ?_
     intro w5 h1 h2
     exact hk w5 h1 (by intro n hn; rw [AllLeafy] at hal; exact hal n (by rw [h2] at hn; exact hn)) (fun n hn => .inl (by rw [h2] at hn; exact hn))
@@ -316,7 +591,11 @@ theorem tree_safe_of_forest (t : Tree) (hF : ForestSafe C inp s path ii sc rd id
         dsimp only
         have hg := hgood t (self_mem_pre t)
         have hself : t ∉ preL t.kids := fun h => ne_of_mem_preL_kids t t h rfl
-        rcases enterStep_frame C _ _ inp s path ii sc rd id w2 w3 t hg.1 hes with ⟨hk1, hk2⟩ | ⟨⟨hs1, hs2, hs3⟩, hact⟩
+        rcases enterStep_frame3 C _ _ inp s path ii sc rd id w2 w3 t hes with ⟨hk1, hk2⟩ | ⟨⟨hs1, hs2, hs3⟩, hact⟩ | ⟨hinc, hai⟩
+        rotate_left 2
+        · -- an executed `include: the directive, its keyword and (for a macro-named file) the usage are listed; skipping is switched off
+          -- again when the keyword is left
+          exact safe_include_rest C inp s path ii sc rd id _ _ t w w2 w3 evs fuel hnd hal hfresh hgood hl hf.2 (hg.2 hinc) hai hAll hk
         · -- flag kept, only children listed: walk the children, then leave
           have h3sk : w3.skip = false := by rw [hk1, hf.1, hsk]
           have h3al : AllLeafy w3 := by
@@ -348,7 +627,7 @@ theorem tree_safe_of_forest (t : Tree) (hF : ForestSafe C inp s path ii sc rd id
               · exact .inr (mem_pre_of_mem_kids h)
             · exact .inr (mem_pre_of_mem_preL_kids h)
         · -- skipping switched on, the node itself listed: its children are skipped, its Leave switches skipping off
-          have hlt : leafy t := hg.2 hact
+          have hlt : leafy t := hg.1 hact
           have ht3 : t ∈ w3.skipNodes := hs3 hlt
           apply safeWalk_skipping C inp s path ii sc rd id _ (eventsL t.kids) (fuel + 1) w3 hs1
           · intro e he
@@ -413,14 +692,31 @@ theorem forest_safe_nil : ForestSafe C inp s path ii sc rd id [] := by
   simp only [eventsL, List.nil_append, List.length_nil, Nat.add_zero]
   exact hk w hsk hal (fun n hn => .inl hn)
 
-mutual
-theorem tree_safe : ∀ (t : Tree), TreeSafe C inp s path ii sc rd id t
-  | .leaf o l n => tree_safe_of_forest C inp s path ii sc rd id (.leaf o l n) (by simpa [Tree.kids] using forest_safe_nil C inp s path ii sc rd id)
-  | .node k ks => tree_safe_of_forest C inp s path ii sc rd id (.node k ks) (by simpa [Tree.kids] using forest_safe ks)
-theorem forest_safe : ∀ (ts : List Tree), ForestSafe C inp s path ii sc rd id ts
-  | [] => forest_safe_nil C inp s path ii sc rd id
-  | t :: rest => forest_safe_cons C inp s path ii sc rd id t rest (tree_safe t) (forest_safe rest)
-end
+theorem safe_by_size : ∀ (n : Nat), (∀ t, size t ≤ n → TreeSafe C inp s path ii sc rd id t) ∧ (∀ ts, sizeL ts ≤ n → ForestSafe C inp s path ii sc rd id ts) := by
+  intro n
+  induction n with
+  | zero =>
+    refine ⟨fun t h => absurd (size_pos t) (by omega), fun ts h => ?_⟩
+    cases ts with
+    | nil => exact forest_safe_nil C inp s path ii sc rd id
+    | cons t rest => simp only [sizeL] at h; exact absurd (size_pos t) (by omega)
+  | succ n ih =>
+    have hT : ∀ t, size t ≤ n + 1 → TreeSafe C inp s path ii sc rd id t := by
+      intro t ht
+      refine tree_safe_of_forest C inp s path ii sc rd id t (ih.2 _ (by rw [size_kids] at ht; omega)) ?_
+      intro ts hts
+      exact ih.2 ts (by omega)
+    refine ⟨hT, ?_⟩
+    intro ts hts
+    cases ts with
+    | nil => exact forest_safe_nil C inp s path ii sc rd id
+    | cons t rest =>
+      simp only [sizeL] at hts
+      have := size_pos t
+      exact forest_safe_cons C inp s path ii sc rd id t rest (hT t (by omega)) (ih.2 rest (by omega))
+
+theorem tree_safe (t : Tree) : TreeSafe C inp s path ii sc rd id t := (safe_by_size C inp s path ii sc rd id (size t)).1 t (Nat.le_refl _)
+theorem forest_safe (ts : List Tree) : ForestSafe C inp s path ii sc rd id ts := (safe_by_size C inp s path ii sc rd id (sizeL ts)).2 ts (Nat.le_refl _)
 
 end
 
@@ -446,17 +742,21 @@ theorem goodLeafyb_sound (K : PpKinds) (ts : List Tree) (h : goodLeafyb K ts = t
   simp only [hk, Bool.not_true, Bool.false_or, Bool.not_eq_true', List.isEmpty_eq_false_iff] at this
   exact this
 
-/-- no node of the forest is an `include directive (then the `include arm never runs, whatever `ignore_include` is) -/
-def noIncludeb (K : PpKinds) (ts : List Tree) : Bool := (preL ts).all (fun d => !(d.baseKind == K.includeDirective))
+/-- every `include node of the forest carries a token and has exactly one child -/
+def goodIncb (K : PpKinds) (ts : List Tree) : Bool :=
+  (preL ts).all (fun d => !(d.baseKind == K.includeDirective) || (!(leaves d).isEmpty && d.kids.length == 1))
 
-theorem good_of_checks (C : Cfg) (ii : Bool) (ts : List Tree) (h1 : goodLeafyb C.K ts = true) (h2 : noIncludeb C.K ts = true ∨ ii = true) :
+theorem good_of_checks (C : Cfg) (ii : Bool) (ts : List Tree) (h1 : goodLeafyb C.K ts = true) (h2 : goodIncb C.K ts = true) :
     ∀ d ∈ preL ts, GoodNode C ii d := by
   intro d hd
-  refine ⟨?_, goodLeafyb_sound C.K ts h1 d hd⟩
-  rcases h2 with h2 | h2
-  · have := (List.all_eq_true.mp h2) d hd
-    simp only [Bool.not_eq_true'] at this
-    simp [this]
-  · simp [h2]
+  refine ⟨goodLeafyb_sound C.K ts h1 d hd, ?_⟩
+  intro hinc
+  have hk : (d.baseKind == C.K.includeDirective) = true := by
+    cases h : (d.baseKind == C.K.includeDirective) <;> simp [h] at hinc ⊢
+  have := (List.all_eq_true.mp h2) d hd
+  simp only [hk, Bool.not_true, Bool.false_or, Bool.and_eq_true, Bool.not_eq_true', List.isEmpty_eq_false_iff, beq_iff_eq] at this
+  refine ⟨this.1, ?_⟩
+  match hkk : d.kids, this.2 with
+  | [a], _ => exact ⟨a, rfl⟩
 
 end Sv
